@@ -27,6 +27,11 @@ def _arr(sol, k):
 def check_ig_vs_gen(case):
     o = Out()
     P = case['params']
+    # the same left/right states have just been solved with another material model in this process (a JWL explosive): nothing of it may survive
+    try:
+        cat.run(dict(case, params=dict(P, problem='JWL', A=8.545, B=0.205, R1=4.6, R2=1.35, r0=1.84, e0=0.0)), x=np.asarray(case['x'][:1], float))
+    except Exception:  # noqa  (the JWL problem itself may have no solution for these states)
+        pass
     sg = cat.make_solver(case)
     x = np.asarray(case['x'], float)
     G = cat.run(case, solver=sg, x=x)
